@@ -14,29 +14,29 @@ Proof.
   destruct (existsb (bytes_eqb (fst x)) seen); [right; eauto|].
   destruct H; [left; auto | right; eauto].
 Qed.
-Lemma u_entries_tx k vs K tau f : In (K, (tau, f)) (u_entries k vs) -> exists v, In v vs /\ v_tx v = tau.
+Lemma u_entries_tx g k vs K tau f : In (K, (tau, f)) (u_entries g k vs) -> exists v, In v vs /\ v_tx v = tau.
 Proof.
   induction vs as [|x older IH]; simpl; [tauto|]. intros [H|H].
   - inversion H; subst. eauto.
   - apply in_app_or in H as [H|H].
     + destruct older as [|y o]; [destruct H|].
-      destruct (bytes_eqb (ukey (r_v (v_row y)) k) (ukey (r_v (v_row x)) k)); [destruct H|].
+      destruct (v_del y || bytes_eqb (ukey g (uvals g (v_row y)) k) (ukey g (uvals g (v_row x)) k)); [destruct H|].
       destruct H as [H|[]]. inversion H; subst. eauto.
     + destruct (IH H) as (v & Hv & E). eauto.
 Qed.
-Lemma u_entries_key k vs K e : In (K, e) (u_entries k vs) -> exists y, K = ukey y k.
+Lemma u_entries_key g k vs K e : In (K, e) (u_entries g k vs) -> exists y, K = ukey g y k.
 Proof.
   induction vs as [|x older IH]; simpl; [tauto|]. intros [H|H].
   - inversion H; subst. eauto.
   - apply in_app_or in H as [H|H]; auto.
     destruct older as [|y o]; [destruct H|].
-    destruct (bytes_eqb (ukey (r_v (v_row y)) k) (ukey (r_v (v_row x)) k)); [destruct H|].
+    destruct (v_del y || bytes_eqb (ukey g (uvals g (v_row y)) k) (ukey g (uvals g (v_row x)) k)); [destruct H|].
     destruct H as [H|[]]. inversion H; subst. eauto.
 Qed.
 (* the entry a version leaves on its own key carries the version's tombstone flag *)
-Lemma u_entries_flag k vs b K tau f v2 :
-  dec_tx b vs -> In (K, (tau, f)) (u_entries k vs) -> In v2 vs -> v_tx v2 = tau ->
-  K = ukey (r_v (v_row v2)) k -> f = v_del v2.
+Lemma u_entries_flag g k vs b K tau f v2 :
+  dec_tx b vs -> In (K, (tau, f)) (u_entries g k vs) -> In v2 vs -> v_tx v2 = tau ->
+  K = ukey g (uvals g (v_row v2)) k -> f = v_del v2.
 Proof.
   revert b; induction vs as [|x older IH]; simpl; [tauto|]. intros b (D1 & D2 & D3) He Hv Et EK.
   assert (Hold : forall w, In w older -> v_tx w < v_tx x).
@@ -45,24 +45,24 @@ Proof.
   - inversion He; subst. destruct Hv as [->|Hv]; auto. specialize (Hold _ Hv). lia.
   - apply in_app_or in He as [He|He].
     + destruct older as [|y o]; [destruct He|].
-      destruct (bytes_eqb (ukey (r_v (v_row y)) k) (ukey (r_v (v_row x)) k)) eqn:Eb; [destruct He|].
+      destruct (v_del y || bytes_eqb (ukey g (uvals g (v_row y)) k) (ukey g (uvals g (v_row x)) k)) eqn:Eb; [destruct He|].
       destruct He as [He|[]]. inversion He; subst.
       destruct Hv as [->|Hv]; [|specialize (Hold _ Hv); lia].
-      rewrite H0, bytes_eqb_refl in Eb. discriminate.
-    + destruct (u_entries_tx _ _ _ _ _ He) as (w & Hw & Ew). specialize (Hold _ Hw).
+      apply Bool.orb_false_iff in Eb as [_ Eb]. rewrite H0, bytes_eqb_refl in Eb. discriminate.
+    + destruct (u_entries_tx _ _ _ _ _ _ He) as (w & Hw & Ew). specialize (Hold _ Hw).
       destruct Hv as [->|Hv]; [lia|]. eapply IH; eauto.
 Qed.
 
-Lemma uview_in ts rows K e :
-  In (K, e) (uview ts rows) -> exists k vs, In (k, vs) rows /\ In (K, e) (u_entries k (vers_at ts vs)).
+Lemma uview_in g ts rows K e :
+  In (K, e) (uview g ts rows) -> exists k vs, In (k, vs) rows /\ In (K, e) (u_entries g k (vers_at ts vs)).
 Proof.
   unfold uview. rewrite in_flat_map. intros ([k vs] & H1 & H2). simpl in H2.
   apply dedup_subset in H2. eauto.
 Qed.
 (* the newest version of a key is in the view, with its flag *)
-Lemma uview_newest c k v vs :
+Lemma uview_newest g c k v vs :
   cwf c -> In (k, v :: vs) (c_rows c) ->
-  In (ukey (r_v (v_row v)) k, (v_tx v, v_del v)) (uview (c_last c) (c_rows c)).
+  In (ukey g (uvals g (v_row v)) k, (v_tx v, v_del v)) (uview g (c_last c) (c_rows c)).
 Proof.
   intros W Hi. unfold uview. apply in_flat_map. exists (k, v :: vs). split; auto. simpl fst; simpl snd.
   destruct (w_rows c W _ _ Hi) as [_ D]. rewrite (vers_at_all _ _ _ D) by lia.
@@ -107,19 +107,19 @@ Proof.
 Qed.
 
 (* ---------- facts recorded by reads, stable along the timeline ---------- *)
-Definition no_live_ver (c : cstate) (K : bytes) (tau : N) : Prop :=
-  forall k v, In v (lookup_pk k (c_rows c)) -> v_tx v = tau -> K = ukey (r_v (v_row v)) k -> v_del v = true.
-Definition tomb_reads (c : cstate) (reads : list (eread bytes)) : Prop :=
+Definition no_live_ver (g : cfg) (c : cstate) (K : bytes) (tau : N) : Prop :=
+  forall k v, In v (lookup_pk k (c_rows c)) -> v_tx v = tau -> K = ukey g (uvals g (v_row v)) k -> v_del v = true.
+Definition tomb_reads (g : cfg) (c : cstate) (reads : list (eread bytes)) : Prop :=
   exists l : list (bytes * N),
     reads = map (fun kt => ERead (fst kt) (snd kt)) l ++ [ENoMore] /\
-    Forall (fun kt => 0 < snd kt /\ snd kt <= c_last c /\ no_live_ver c (fst kt) (snd kt)) l.
-Definition claimed (c : cstate) (t : txs) (x : val) : Prop :=
-  klookup (smkey_u x) (t_keys t) = Some true /\
-  exists reads, In (RScan (smkey_u x) reads) (t_reads t) /\ tomb_reads c reads.
-Definition has_ver (c : cstate) (k : Z) (etx : N) (x : val) : Prop :=
-  exists v, In v (lookup_pk k (c_rows c)) /\ v_tx v = etx /\ v_del v = false /\ r_v (v_row v) = x.
-Definition inherited (c : cstate) (t : txs) (k : Z) (x : val) : Prop :=
-  exists etx, 0 < etx /\ In (RRange (Some k) (Some k) false [ERead k etx]) (t_reads t) /\ has_ver c k etx x.
+    Forall (fun kt => 0 < snd kt /\ snd kt <= c_last c /\ no_live_ver g c (fst kt) (snd kt)) l.
+Definition claimed (g : cfg) (c : cstate) (t : txs) (x : uval) : Prop :=
+  klookup (smkey_u g x) (t_keys t) = Some true /\
+  exists reads, In (RScan (smkey_u g x) reads) (t_reads t) /\ tomb_reads g c reads.
+Definition has_ver (g : cfg) (c : cstate) (k : Z) (etx : N) (x : uval) : Prop :=
+  exists v, In v (lookup_pk k (c_rows c)) /\ v_tx v = etx /\ v_del v = false /\ uvals g (v_row v) = x.
+Definition inherited (g : cfg) (c : cstate) (t : txs) (k : Z) (x : uval) : Prop :=
+  exists etx, 0 < etx /\ In (RRange (Some k) (Some k) false [ERead k etx]) (t_reads t) /\ has_ver g c k etx x.
 
 Lemma ext_in c c' k v : ext c c' -> In v (lookup_pk k (c_rows c)) -> In v (lookup_pk k (c_rows c')).
 Proof. intros E H. destruct (e_rows _ _ E k) as (n & -> & _). apply in_or_app; auto. Qed.
@@ -130,15 +130,15 @@ Proof.
   apply in_app_or in H as [H|H]; auto. rewrite Forall_forall in F. specialize (F _ H). lia.
 Qed.
 
-Lemma no_live_ver_ext c c' K tau : ext c c' -> tau <= c_last c -> no_live_ver c K tau -> no_live_ver c' K tau.
+Lemma no_live_ver_ext g c c' K tau : ext c c' -> tau <= c_last c -> no_live_ver g c K tau -> no_live_ver g c' K tau.
 Proof. intros E L H k v Hv Et EK. eapply H; eauto. eapply ext_old; eauto. lia. Qed.
-Lemma tomb_reads_ext c c' rs : ext c c' -> tomb_reads c rs -> tomb_reads c' rs.
+Lemma tomb_reads_ext g c c' rs : ext c c' -> tomb_reads g c rs -> tomb_reads g c' rs.
 Proof.
   intros E (l & -> & F). exists l. split; auto. eapply Forall_impl; [|exact F].
   intros [K tau] (H1 & H2 & H3). simpl in *. pose proof (e_last _ _ E).
   repeat split; auto; try lia. eapply no_live_ver_ext; eauto.
 Qed.
-Lemma has_ver_ext c c' k etx x : ext c c' -> has_ver c k etx x -> has_ver c' k etx x.
+Lemma has_ver_ext g c c' k etx x : ext c c' -> has_ver g c k etx x -> has_ver g c' k etx x.
 Proof. intros E (v & H1 & H2). exists v. split; auto. eapply ext_in; eauto. Qed.
 
 (* reads and key registrations only accumulate *)
@@ -149,26 +149,26 @@ Lemma grows_trans a b c : grows a b -> grows b c -> grows a c.
 Proof. intros [A1 A2] [B1 B2]. split; auto. eapply incl_tran; eauto. Qed.
 Lemma mono_grows c t t' : mono c t t' -> grows t t'.
 Proof. intros M. split. apply (m_reads _ _ _ M). apply (m_keys _ _ _ M). Qed.
-Lemma claimed_grows c t t' x : grows t t' -> claimed c t x -> claimed c t' x.
+Lemma claimed_grows g c t t' x : grows t t' -> claimed g c t x -> claimed g c t' x.
 Proof. intros [G1 G2] [H1 (rs & H2 & H3)]. split; auto. exists rs; split; auto. Qed.
-Lemma inherited_grows c t t' k x : grows t t' -> inherited c t k x -> inherited c t' k x.
+Lemma inherited_grows g c t t' k x : grows t t' -> inherited g c t k x -> inherited g c t' k x.
 Proof. intros [G1 G2] (etx & H1 & H2 & H3). exists etx. repeat split; auto. Qed.
 
 (* ---------- the per-transaction invariant ---------- *)
-Record tU (c : cstate) (t : txs) : Prop := mkTU {
+Record tU (g : cfg) (c : cstate) (t : txs) : Prop := mkTU {
   u_catb : t_catts t <= c_last c;
   u_usb : forall a, t_usnap t = Some a -> a <= c_last c;
   u_cat : c_cat c <= t_catts t -> c_uidx c = t_uidx t;
   (* a live row written under the unique index either claimed its value (uniqueness check passed,
      transient key registered) or inherited it from the version of the same key it overwrites *)
   u_rows : t_uidx t = true -> forall k r, alookup k (t_rows t) = Some (false, r) ->
-           claimed c t (r_v r) \/ inherited c t k (r_v r);
+           claimed g c t (uvals g r) \/ inherited g c t k (uvals g r);
   u_pair : t_uidx t = true -> forall k1 r1 k2 r2, k1 <> k2 ->
            alookup k1 (t_rows t) = Some (false, r1) -> alookup k2 (t_rows t) = Some (false, r2) ->
-           r_v r1 = r_v r2 -> inherited c t k1 (r_v r1) \/ inherited c t k2 (r_v r2)
+           uvals g r1 = uvals g r2 -> inherited g c t k1 (uvals g r1) \/ inherited g c t k2 (uvals g r2)
 }.
 
-Lemma tU_new g c e : cwf c -> tU c (new_tx g c e).
+Lemma tU_new g c e : cwf c -> tU g c (new_tx g c e).
 Proof.
   intros W.
   assert (F : t_catts (new_tx g c e) = c_last c /\ t_uidx (new_tx g c e) = c_uidx c /\
@@ -183,7 +183,7 @@ Proof.
   - rewrite new_tx_rows. simpl. discriminate.
 Qed.
 
-Lemma tU_stable c c' t : cwf c -> tU c t -> cstep c c' -> tU c' t.
+Lemma tU_stable g c c' t : cwf c -> tU g c t -> cstep c c' -> tU g c' t.
 Proof.
   intros W [U1 U2 U3 U4 U5] [E Cat]. pose proof (e_last _ _ E) as L. constructor.
   - lia.
@@ -197,7 +197,7 @@ Proof.
       exists etx; repeat split; auto; eapply has_ver_ext; eauto.
 Qed.
 
-Lemma tU_mono c t t' : tU c t -> mono c t t' -> tU c t'.
+Lemma tU_mono g c t t' : tU g c t -> mono c t t' -> tU g c t'.
 Proof.
   intros [U1 U2 U3 U4 U5] M. pose proof (mono_grows _ _ _ M) as G. constructor.
   - rewrite (m_cat _ _ _ M); auto.
@@ -210,34 +210,34 @@ Proof.
 Qed.
 
 (* ---------- what a passed uniqueness check records ---------- *)
-Lemma check_unique_fix_inv c t x tc :
-  check_unique_fix c t x = Ok tc ->
-  klookup (smkey_u x) (t_keys t) <> Some true /\
-  exists rs, scan_pfx (under (smkey_u x) (uview (usnap_ts c t) (c_rows c))) = (rs, false) /\
-             tc = add_read (RScan (smkey_u x) rs) (touch_u c t).
+Lemma check_unique_fix_inv g c t x tc :
+  check_unique_fix g c t x = Ok tc ->
+  klookup (smkey_u g x) (t_keys t) <> Some true /\
+  exists rs, scan_pfx (under (smkey_u g x) (uview g (usnap_ts c t) (c_rows c))) = (rs, false) /\
+             tc = add_read (RScan (smkey_u g x) rs) (touch_u c t).
 Proof.
   unfold check_unique_fix. cbv zeta. simpl t_keys.
-  destruct (klookup (smkey_u x) (t_keys t)) as [[|]|] eqn:Ek; try discriminate;
-    destruct (scan_pfx (under (smkey_u x) (uview (usnap_ts c t) (c_rows c)))) as [rs f] eqn:Es;
+  destruct (klookup (smkey_u g x) (t_keys t)) as [[|]|] eqn:Ek; try discriminate;
+    destruct (scan_pfx (under (smkey_u g x) (uview g (usnap_ts c t) (c_rows c)))) as [rs f] eqn:Es;
     destruct f; try discriminate; intros H; inversion H; subst; split; try discriminate; eauto.
 Qed.
 
-Lemma scan_tomb_reads c ts p rs :
+Lemma scan_tomb_reads g c ts p rs :
   cwf c -> ts <= c_last c ->
-  scan_pfx (under p (uview ts (c_rows c))) = (rs, false) -> tomb_reads c rs.
+  scan_pfx (under p (uview g ts (c_rows c))) = (rs, false) -> tomb_reads g c rs.
 Proof.
   intros W L H. apply scan_pfx_false in H as [-> F].
-  exists (map (fun ke => (fst ke, fst (snd ke))) (under p (uview ts (c_rows c)))). split.
+  exists (map (fun ke => (fst ke, fst (snd ke))) (under p (uview g ts (c_rows c)))). split.
   - rewrite map_map. reflexivity.
   - rewrite Forall_map. rewrite Forall_forall in *. intros [K [tau f]] Hi. specialize (F _ Hi). simpl in *. subst f.
     unfold under in Hi. apply filter_In in Hi as [Hi _].
     apply uview_in in Hi as (k & vs & Hr & He).
     destruct (w_rows c W _ _ Hr) as [Kk D].
-    destruct (u_entries_tx _ _ _ _ _ He) as (v & Hv & Ev).
+    destruct (u_entries_tx _ _ _ _ _ _ He) as (v & Hv & Ev).
     pose proof (vers_at_in _ _ _ Hv) as [Hv1 Hv2]. destruct (dec_tx_bound _ _ _ D Hv1).
     repeat split; try lia.
     intros k2 v2 H2 Et EK.
-    destruct (u_entries_key _ _ _ _ He) as (y & Ey).
+    destruct (u_entries_key _ _ _ _ _ He) as (y & Ey).
     apply lookup_pk_elem in H2 as (vs2 & Hr2 & Hv2').
     destruct (w_rows c W _ _ Hr2) as [Kk2 D2].
     assert (k = k2) by (subst K; eapply ukey_inj; eauto). subst k2.
@@ -246,7 +246,7 @@ Proof.
     subst vs2.
     assert (Hin2 : In v2 (vers_at ts vs)).
     { unfold vers_at. apply filter_In. split; auto. apply N.leb_le. lia. }
-    symmetry. eapply (u_entries_flag k (vers_at ts vs) (c_last c) K tau true v2); eauto.
+    symmetry. eapply (u_entries_flag g k (vers_at ts vs) (c_last c) K tau true v2); eauto.
     apply vers_at_dec; auto.
 Qed.
 
@@ -275,13 +275,14 @@ Qed.
 
 (* ---------- doUpsert preserves the invariant ---------- *)
 Lemma tU_upsert g fx c t k nv ns reuse t' :
-  fx_unique fx = true -> cwf c -> tU c t -> in_i64 k = true ->
-  do_upsert g fx c t k nv ns reuse = Ok t' -> tU c t'.
+  fx_unique fx = true -> cwf c -> tU g c t -> in_i64 k = true ->
+  do_upsert g fx c t k nv ns reuse = Ok t' -> tU g c t'.
 Proof.
   intros Fx W U K Hd.
   pose proof (do_upsert_rows _ _ _ _ _ _ _ _ _ Hd) as (v'0 & s'0 & _ & _ & Hrows & Hcat & Huidx & _).
   apply do_upsert_inv in Hd as (t1 & ru & rn & v' & s' & M1 & Cv & Cs & Hru & t3 & H3 & H4).
   cbv zeta in H3. set (t2 := set_rows (aset k (false, mkRow v' s') (t_rows t1)) (touch_p c t1)) in *.
+  set (xn := uvals g (mkRow v' s')) in *.
   assert (G12 : grows t1 t2) by (unfold t2; split; simpl; auto; apply incl_refl).
   assert (M3 : mono c t2 t3).
   { destruct (t_uidx t2 && negb ru).
@@ -296,20 +297,25 @@ Proof.
   assert (Rows : t_rows t' = aset k (false, mkRow v' s') (t_rows t)).
   { rewrite (m_rows _ _ _ M4), (m_rows _ _ _ M3). unfold t2; simpl. rewrite (m_rows _ _ _ M1). reflexivity. }
   assert (Eu2 : t_uidx t2 = t_uidx t) by (unfold t2; simpl; apply (m_uidx _ _ _ M1)).
-  apply conv_v_same in Cv. subst v'.
   destruct U as [U1 U2 U3 U4 U5].
+  (* a version read from the committed state by fetchPKRow is inherited *)
+  assert (Inh : forall cur t0, fetch c t k = (Some cur, t0) -> mono c t0 t1 -> alookup k (t_rows t) = None ->
+                               inherited g c t' k (uvals g cur)).
+  { intros cur t0 Hf M01 Hl.
+    destruct (fetch_detail _ _ _ _ _ Hf) as [Hl'|(_ & v & vs & Hv & Hd & Hrw & Hrd)]; [congruence|].
+    assert (Hi : In v (vers_at (psnap_ts c t) (lookup_pk k (c_rows c)))) by (rewrite Hv; left; auto).
+    apply vers_at_in in Hi as [Hi _].
+    destruct (dec_tx_bound _ _ _ (cwf_lookup c k W) Hi).
+    exists (v_tx v). split; auto. split.
+    - apply (proj1 Gt1). apply (m_reads _ _ _ M01). exact Hrd.
+    - exists v. repeat split; auto. congruence. }
   (* the status of the row written under k *)
-  assert (Knew : t_uidx t = true -> claimed c t' nv \/ inherited c t' k nv).
+  assert (Knew : t_uidx t = true -> claimed g c t' xn \/ inherited g c t' k xn).
   { intros Hu. destruct ru.
-    - destruct (Hru eq_refl) as (cur & t0 & _ & Hf & M01 & _ & Ev). apply val_eqb_eq in Ev.
-      destruct (fetch_detail _ _ _ _ _ Hf) as [Hl|(Hl & v & vs & Hv & Hd & Hrw & Hrd)].
-      + subst nv. destruct (U4 Hu k cur Hl); [left; eapply claimed_grows | right; eapply inherited_grows]; eauto.
-      + right. assert (Hi : In v (vers_at (psnap_ts c t) (lookup_pk k (c_rows c)))) by (rewrite Hv; left; auto).
-        apply vers_at_in in Hi as [Hi _].
-        destruct (dec_tx_bound _ _ _ (cwf_lookup c k W) Hi).
-        exists (v_tx v). split; auto. split.
-        * apply (proj1 Gt1). apply (m_reads _ _ _ M01). exact Hrd.
-        * exists v. repeat split; auto. congruence.
+    - destruct (Hru eq_refl) as (cur & t0 & _ & Hf & M01 & _ & Ev). fold xn in Ev.
+      destruct (fetch_detail _ _ _ _ _ Hf) as [Hl|(Hl & _)].
+      + rewrite <- Ev. destruct (U4 Hu k cur Hl); [left; eapply claimed_grows | right; eapply inherited_grows]; eauto.
+      + right. rewrite <- Ev. eapply Inh; eauto.
     - rewrite Eu2, Hu in H3. simpl in H3. destruct H3 as (tc & Hc & Hk).
       unfold check_unique in Hc. rewrite Fx in Hc.
       apply check_unique_fix_inv in Hc as (Hnk & rs & Hs & ->).
@@ -317,7 +323,7 @@ Proof.
       + apply (m_keys _ _ _ M4). eapply key_set_bound; eauto.
       + exists rs. split.
         * apply (m_reads _ _ _ M4). apply (m_reads _ _ _ (key_set_mono c _ _ _ _ Hk)). simpl. left; auto.
-        * apply (scan_tomb_reads c (usnap_ts c t2) (smkey_u nv) rs W); [|exact Hs].
+        * apply (scan_tomb_reads g c (usnap_ts c t2) (smkey_u g xn) rs W); [|exact Hs].
           unfold usnap_ts. destruct (t_usnap t2) as [a|] eqn:Ea; [|lia].
           unfold t2 in Ea; simpl in Ea. destruct (m_us _ _ _ M1 a Ea) as [H|[_ ->]]; [auto | lia]. }
   constructor.
@@ -328,31 +334,21 @@ Proof.
   - rewrite Hcat, Huidx; auto.
   - rewrite Huidx, Rows. intros Hu k0 r Hr.
     apply alookup_aset_live in Hr as [[-> E]|[Hn Hr]].
-    + inversion E; subst; simpl. auto.
+    + inversion E; subst. fold xn. auto.
     + destruct (U4 Hu k0 r Hr); [left; eapply claimed_grows | right; eapply inherited_grows]; eauto.
   - rewrite Huidx, Rows. intros Hu k1 r1 k2 r2 Hn H1 H2 Hv.
     (* a pair involving the freshly written key *)
-    assert (Pair : forall k0 r0, k0 <> k -> alookup k0 (t_rows t) = Some (false, r0) -> r_v r0 = nv ->
-                                 inherited c t' k nv \/ inherited c t' k0 nv).
+    assert (Pair : forall k0 r0, k0 <> k -> alookup k0 (t_rows t) = Some (false, r0) -> uvals g r0 = xn ->
+                                 inherited g c t' k xn \/ inherited g c t' k0 xn).
     { intros k0 r0 Hk0 Hl0 Hv0. destruct ru.
-      - destruct (Hru eq_refl) as (cur & t0 & _ & Hf & M01 & _ & Ev). apply val_eqb_eq in Ev.
+      - destruct (Hru eq_refl) as (cur & t0 & _ & Hf & M01 & _ & Ev). fold xn in Ev.
         destruct (fetch_detail _ _ _ _ _ Hf) as [Hl|(Hl & _)].
         + assert (Hk0' : k <> k0) by congruence.
-          assert (Evv : r_v cur = r_v r0) by congruence.
+          assert (Evv : uvals g cur = uvals g r0) by congruence.
           destruct (U5 Hu k cur k0 r0 Hk0' Hl Hl0 Evv) as [A|A].
           * left. rewrite <- Ev. eapply inherited_grows; eauto.
           * right. rewrite <- Hv0. eapply inherited_grows; eauto.
-        + destruct (Knew Hu) as [[Hc _]|Hi]; auto.
-          (* claimed is impossible here: ru = true means no check ran; use the inherited branch of Knew *)
-          left. destruct (Hru eq_refl) as (cur' & t0' & _ & Hf' & M01' & _ & Ev').
-          destruct (fetch_detail _ _ _ _ _ Hf') as [Hl'|(Hl' & v & vs & Hvv & Hdd & Hrw & Hrd)]; [congruence|].
-          apply val_eqb_eq in Ev'.
-          assert (Hi : In v (vers_at (psnap_ts c t) (lookup_pk k (c_rows c)))) by (rewrite Hvv; left; auto).
-          apply vers_at_in in Hi as [Hi _].
-          destruct (dec_tx_bound _ _ _ (cwf_lookup c k W) Hi).
-          exists (v_tx v). split; auto. split.
-          * apply (proj1 Gt1). apply (m_reads _ _ _ M01'). exact Hrd.
-          * exists v. repeat split; auto. congruence.
+        + left. rewrite <- Ev. eapply Inh; eauto.
       - rewrite Eu2, Hu in H3. simpl in H3. destruct H3 as (tc & Hc & Hk).
         unfold check_unique in Hc. rewrite Fx in Hc.
         apply check_unique_fix_inv in Hc as (Hnk & _).
@@ -361,17 +357,17 @@ Proof.
         + right. rewrite <- Hv0. eapply inherited_grows; eauto. }
     apply alookup_aset_live in H1 as [[-> E1]|[Hn1 H1]]; apply alookup_aset_live in H2 as [[-> E2]|[Hn2 H2]].
     + congruence.
-    + inversion E1; subst; simpl in *. rewrite <- Hv. apply (Pair k2 r2 Hn2 H2). auto.
-    + inversion E2; subst; simpl in *. rewrite Hv. destruct (Pair k1 r1 Hn1 H1 Hv); auto.
+    + inversion E1; subst. fold xn in Hv. fold xn. rewrite <- Hv. apply (Pair k2 r2 Hn2 H2). auto.
+    + inversion E2; subst. fold xn in Hv. fold xn. rewrite Hv. destruct (Pair k1 r1 Hn1 H1 Hv); auto.
     + destruct (U5 Hu k1 r1 k2 r2 Hn H1 H2 Hv); [left | right]; eapply inherited_grows; eauto.
 Qed.
 
 Lemma tU_exec g fx c t s t' :
-  fx_unique fx = true -> cwf c -> tbase t -> tU c t -> exec_stmt g fx c t s = Ok t' -> tU c t'.
+  fx_unique fx = true -> cwf c -> tbase t -> tU g c t -> exec_stmt g fx c t s = Ok t' -> tU g c t'.
 Proof.
   intros Fx W B U H.
-  assert (X : tbase t' /\ tU c t'); [|tauto].
-  apply (exec_stmt_preserves g fx c false false (fun x => tbase x /\ tU c x) (fun _ => True)) with (t := t) (s := s);
+  assert (X : tbase t' /\ tU g c t'); [|tauto].
+  apply (exec_stmt_preserves g fx c false false (fun x => tbase x /\ tU g c x) (fun _ => True)) with (t := t) (s := s);
     auto using stmt_safe_ff.
   - intros a b [Ba Ua] M. split; [|eapply tU_mono; eauto]. unfold tbase. rewrite (m_rows _ _ _ M). exact Ba.
   - intros a k etx d r [Ba Ua] Hr. split; auto. eapply tx_row_key; eauto.
@@ -388,16 +384,16 @@ Proof.
 Qed.
 
 (* ---------- what a successful validation says about the state committed on ---------- *)
-Lemma claimed_valid c t x k r :
-  cwf c -> claimed c t x -> forallb (val_entry c) (t_reads t) = true ->
-  In (k, r) (live_rows c) -> r_v r = x -> False.
+Lemma claimed_valid g c t x k r :
+  cwf c -> claimed g c t x -> forallb (val_entry g c) (t_reads t) = true ->
+  In (k, r) (live_rows c) -> uvals g r = x -> False.
 Proof.
   intros W [_ (rs & Hin & (l & -> & F))] Hval Hl Hx.
   rewrite forallb_forall in Hval. specialize (Hval _ Hin). simpl in Hval.
   apply val_reads_exact in Hval; [|eapply Forall_impl; [|exact F]; simpl; tauto].
   apply live_rows_in in Hl as (v & vs & Hr & Hd & Hrow).
-  pose proof (uview_newest c k v vs W Hr) as He. rewrite Hrow, Hx, Hd in He.
-  assert (Hu : In (ukey x k, (v_tx v, false)) (under (smkey_u x) (uview (c_last c) (c_rows c)))).
+  pose proof (uview_newest g c k v vs W Hr) as He. rewrite Hrow, Hx, Hd in He.
+  assert (Hu : In (ukey g x k, (v_tx v, false)) (under (smkey_u g x) (uview g (c_last c) (c_rows c)))).
   { unfold under. apply filter_In. split; auto. simpl. apply ukey_prefix. }
   apply (in_map (fun ke : bytes * entry => (fst ke, fst (snd ke)))) in Hu. simpl in Hu.
   destruct (Forall2_in_r _ _ _ _ Hval Hu) as ([K tau] & Hkt & HK & Ht). simpl in *.
@@ -405,7 +401,7 @@ Proof.
   rewrite Forall_forall in F. destruct (F _ Hkt) as (_ & _ & Hn). simpl in Hn.
   assert (Hv : In v (lookup_pk k (c_rows c))).
   { rewrite (in_lookup_pk _ _ _ (w_nodup c W) Hr). left; auto. }
-  assert (EK : K = ukey (r_v (v_row v)) k) by (rewrite Hrow, Hx; exact HK).
+  assert (EK : K = ukey g (uvals g (v_row v)) k) by (rewrite Hrow, Hx; exact HK).
   specialize (Hn k v Hv (eq_sym Ht) EK). congruence.
 Qed.
 
@@ -417,9 +413,9 @@ Proof.
   destruct Hl as [Hl|[]]. inversion Hl; subst. eauto.
 Qed.
 
-Lemma inherited_valid c t k x :
-  cwf c -> inherited c t k x -> forallb (val_entry c) (t_reads t) = true ->
-  exists r, In (k, r) (live_rows c) /\ r_v r = x.
+Lemma inherited_valid g c t k x :
+  cwf c -> inherited g c t k x -> forallb (val_entry g c) (t_reads t) = true ->
+  exists r, In (k, r) (live_rows c) /\ uvals g r = x.
 Proof.
   intros W (etx & Hpos & Hin & (v & Hv & Et & Hd & Hx)) Hval.
   rewrite forallb_forall in Hval. specialize (Hval _ Hin). unfold val_entry in Hval.
@@ -451,9 +447,9 @@ Proof.
   - right. split; auto. apply live_rows_lookup; [apply (w_nodup c W)|]. eauto.
 Qed.
 
-Lemma unique_commit c t :
-  cwf c -> unique_ok c -> tbase t -> tU c t -> validate c t = true -> t_rows t <> [] ->
-  unique_ok (apply_writes c t).
+Lemma unique_commit g c t :
+  cwf c -> unique_ok g c -> tbase t -> tU g c t -> validate g c t = true -> t_rows t <> [] ->
+  unique_ok g (apply_writes c t).
 Proof.
   intros W Uc B U Hval Hne Hidx k1 r1 k2 r2 H1 H2 Hv.
   assert (Eidx : c_uidx (apply_writes c t) = c_uidx c).
@@ -461,30 +457,30 @@ Proof.
   rewrite Eidx in Hidx.
   unfold validate in Hval. apply andb_prop in Hval as [Hcat Hreads].
   assert (Hu : t_uidx t = true).
-  { rewrite <- (u_cat _ _ U); auto. destruct (N.ltb_spec (t_catts t) (c_cat c)); [discriminate | lia]. }
+  { rewrite <- (u_cat _ _ _ U); auto. destruct (N.ltb_spec (t_catts t) (c_cat c)); [discriminate | lia]. }
   apply (live_after c t _ _ W B Hne) in H1. apply (live_after c t _ _ W B Hne) in H2.
   destruct (Z.eq_dec k1 k2) as [|Hn]; auto. exfalso.
   destruct H1 as [L1|[N1 L1]], H2 as [L2|[N2 L2]].
   - (* both written by the transaction *)
-    destruct (u_pair _ _ U Hu k1 r1 k2 r2 Hn L1 L2 Hv) as [I|I].
-    + destruct (inherited_valid _ _ _ _ W I Hreads) as (r & Hl & Hx).
-      destruct (u_rows _ _ U Hu k2 r2 L2) as [Cl|I2].
-      * eapply (claimed_valid c t (r_v r2) k1 r); eauto. congruence.
-      * destruct (inherited_valid _ _ _ _ W I2 Hreads) as (r' & Hl' & Hx').
+    destruct (u_pair _ _ _ U Hu k1 r1 k2 r2 Hn L1 L2 Hv) as [I|I].
+    + destruct (inherited_valid _ _ _ _ _ W I Hreads) as (r & Hl & Hx).
+      destruct (u_rows _ _ _ U Hu k2 r2 L2) as [Cl|I2].
+      * eapply (claimed_valid g c t (uvals g r2) k1 r); eauto. congruence.
+      * destruct (inherited_valid _ _ _ _ _ W I2 Hreads) as (r' & Hl' & Hx').
         apply Hn. eapply (Uc Hidx k1 r k2 r'); eauto. congruence.
-    + destruct (inherited_valid _ _ _ _ W I Hreads) as (r & Hl & Hx).
-      destruct (u_rows _ _ U Hu k1 r1 L1) as [Cl|I1].
-      * eapply (claimed_valid c t (r_v r1) k2 r); eauto. congruence.
-      * destruct (inherited_valid _ _ _ _ W I1 Hreads) as (r' & Hl' & Hx').
+    + destruct (inherited_valid _ _ _ _ _ W I Hreads) as (r & Hl & Hx).
+      destruct (u_rows _ _ _ U Hu k1 r1 L1) as [Cl|I1].
+      * eapply (claimed_valid g c t (uvals g r1) k2 r); eauto. congruence.
+      * destruct (inherited_valid _ _ _ _ _ W I1 Hreads) as (r' & Hl' & Hx').
         apply Hn. eapply (Uc Hidx k1 r' k2 r); eauto. congruence.
   - (* k1 written, k2 untouched and live *)
-    destruct (u_rows _ _ U Hu k1 r1 L1) as [Cl|I1].
-    + eapply (claimed_valid c t (r_v r1) k2 r2); eauto.
-    + destruct (inherited_valid _ _ _ _ W I1 Hreads) as (r' & Hl' & Hx').
+    destruct (u_rows _ _ _ U Hu k1 r1 L1) as [Cl|I1].
+    + eapply (claimed_valid g c t (uvals g r1) k2 r2); eauto.
+    + destruct (inherited_valid _ _ _ _ _ W I1 Hreads) as (r' & Hl' & Hx').
       apply Hn. eapply (Uc Hidx k1 r' k2 r2); eauto. congruence.
-  - destruct (u_rows _ _ U Hu k2 r2 L2) as [Cl|I2].
-    + eapply (claimed_valid c t (r_v r2) k1 r1); eauto.
-    + destruct (inherited_valid _ _ _ _ W I2 Hreads) as (r' & Hl' & Hx').
+  - destruct (u_rows _ _ _ U Hu k2 r2 L2) as [Cl|I2].
+    + eapply (claimed_valid g c t (uvals g r2) k1 r1); eauto.
+    + destruct (inherited_valid _ _ _ _ _ W I2 Hreads) as (r' & Hl' & Hx').
       apply Hn. eapply (Uc Hidx k1 r1 k2 r'); eauto. congruence.
   - apply Hn. eapply (Uc Hidx); eauto.
 Qed.
@@ -504,7 +500,7 @@ Proof.
   apply scan_pfx_live in Hp. rewrite Hp in H. discriminate.
 Qed.
 
-Lemma unique_ddl fx c u c' : fx_unique fx = true -> cwf c -> unique_ok c -> ddl fx c u = Ok c' -> unique_ok c'.
+Lemma unique_ddl g fx c u c' : fx_unique fx = true -> cwf c -> unique_ok g c -> ddl fx c u = Ok c' -> unique_ok g c'.
 Proof.
   intros Fx W Uc H. unfold ddl in H. rewrite Fx in H. destruct u.
   - destruct (table_empty_fix c) eqn:Ee; simpl in H; [|discriminate].
@@ -514,11 +510,11 @@ Proof.
   - destruct (c_nidx c); [discriminate|]. inversion H; subst. exact Uc.
 Qed.
 
-Theorem unique_fixed g fx evs : fx_unique fx = true -> unique_ok (s_c (run g fx evs)).
+Theorem unique_fixed g fx evs : fx_unique fx = true -> unique_ok g (s_c (run g fx evs)).
 Proof.
   intros Fx.
-  assert (S : SI unique_ok tU (run g fx evs)).
-  { apply (run_SI g fx false false unique_ok tU).
+  assert (S : SI (unique_ok g) (tU g) (run g fx evs)).
+  { apply (run_SI g fx false false (unique_ok g) (tU g)).
     - intros Hu; discriminate.
     - intros c e W _. apply tU_new; auto.
     - intros c t s t' W _ B U _ H. eapply tU_exec; eauto.
